@@ -985,3 +985,446 @@ Proof.
   intros c s V R NF. destruct (no_deadlock_inv c s V (inv_reachable c s R) NF) as (e & s' & H1 & H2 & H3).
   exists e. repeat split; try assumption. unfold enabled. rewrite H3. reflexivity.
 Qed.
+
+(** * Progress measure *)
+
+Definition msg_w (m : msg) : nat := match m with MWork _ => 3 | MFinish => 2 | MPend => 1 end.
+Fixpoint chan_w (l : list msg) : nat := match l with [] => 0 | m :: l' => msg_w m + chan_w l' end.
+Definition st_w (st : wstat) : nat := match st with Work _ => 2 | _ => 0 end.
+
+(** remaining protocol steps on one link *)
+Definition link_mu (s : sys) (w : wid) : nat :=
+  chan_w (chan s w) + st_w (wst s w) + (if wfin s w then 0 else 3).
+
+(** 4 per job still on the stack (order, receive, run+report, completion seen), the remaining steps of every
+    link (incl. send Finish, receive Finish), 1 per rank still in the loop *)
+Definition mu (c : cfg) (s : sys) : nat :=
+  4 * length (jobstack s) + sumf (link_mu s) (pool c) + sumf (fun r => b2n (negb (exited s r))) (ranks c).
+
+Lemma chan_w_app : forall a b, chan_w (a ++ b) = chan_w a + chan_w b.
+Proof. induction a as [|m a IH]; intros b; simpl; [reflexivity|rewrite IH; lia]. Qed.
+
+Lemma mu_link_change : forall c s s' w, In w (pool c) ->
+  (forall x, x <> w -> link_mu s' x = link_mu s x) ->
+  sumf (link_mu s') (pool c) + link_mu s w = sumf (link_mu s) (pool c) + link_mu s' w.
+Proof.
+  intros c s s' w Hp H. apply sumf_change; [apply pool_NoDup|exact Hp|]. intros x _ Hx. apply H. exact Hx.
+Qed.
+
+Lemma mu_order_one : forall c s j0 js w0 ws, Inv c s -> jobstack s = j0 :: js -> wstack s = w0 :: ws ->
+  mu c (order_worker w0 j0 (set_stacks js ws s)) + 1 = mu c s.
+Proof.
+  intros c s j0 js w0 ws I Hj Hw.
+  assert (Hp0 : In w0 (pool c)) by (apply (inv_ws_pool c s I); rewrite Hw; left; reflexivity).
+  pose proof (mu_link_change c s (order_worker w0 j0 (set_stacks js ws s)) w0 Hp0) as F.
+  assert (L0 : link_mu (order_worker w0 j0 (set_stacks js ws s)) w0 = link_mu s w0 + 3).
+  { unfold link_mu; simpl. upds. rewrite chan_w_app. simpl. lia. }
+  assert (Lx : forall x, x <> w0 -> link_mu (order_worker w0 j0 (set_stacks js ws s)) x = link_mu s x).
+  { intros x Hx. unfold link_mu; simpl. upds. reflexivity. }
+  specialize (F Lx). unfold mu. simpl. rewrite Hj. simpl. lia.
+Qed.
+
+Lemma mu_order_loop : forall c js ws s, Inv c s -> jobstack s = js -> wstack s = ws ->
+  mu c (order_loop js ws s) + length (combine js ws) = mu c s.
+Proof.
+  intros c js. induction js as [|j js IH]; intros ws s I Hj Hw; simpl; [lia|].
+  destruct ws as [|w ws]; simpl; [lia|].
+  pose proof (mu_order_one c s j js w ws I Hj Hw) as M.
+  rewrite <- M. rewrite <- (IH ws (order_worker w j (set_stacks js ws s))); [lia| |reflexivity|reflexivity].
+  apply inv_order_one; assumption.
+Qed.
+
+Lemma mu_see : forall c s w s', Inv c s -> In w (pool c) -> see w s = Some s' -> mu c s' + 1 = mu c s.
+Proof.
+  intros c s w s' I Hp Hsee. unfold see in Hsee.
+  destruct (outst s w) eqn:Ho; [|discriminate].
+  destruct (pend_match s w) as [l|] eqn:Hm; [|discriminate].
+  injection Hsee as Hs'.
+  destruct (pend_match_shape s w l (inv_links c s I w Hp) Ho Hm) as (El & Hc & Hs & Hmem & Hf & He & Hpo).
+  subst l.
+  pose proof (mu_link_change c s s' w Hp) as F.
+  assert (L0 : link_mu s' w + 1 = link_mu s w).
+  { subst s'. unfold link_mu; simpl. upds. rewrite Hc. simpl. lia. }
+  assert (Lx : forall x, x <> w -> link_mu s' x = link_mu s x).
+  { intros x Hx. subst s'. unfold link_mu; simpl. upds. reflexivity. }
+  specialize (F Lx). unfold mu. subst s'. simpl in *. lia.
+Qed.
+
+Lemma mu_check_loop : forall c ws seen s s', (forall w, In w ws -> In w (pool c)) -> Inv c s ->
+  check_loop ws seen s = Some s' -> mu c s' + length seen = mu c s.
+Proof.
+  intros c ws. induction ws as [|w ws IH]; intros seen s s' Hin I H; simpl in H.
+  - destruct seen; [inversion H; subst; simpl; lia|discriminate].
+  - destruct seen as [|w' seen']; [inversion H; subst; simpl; lia|].
+    destruct (Nat.eqb_spec w w') as [E|E].
+    + destruct (see w s) as [s1|] eqn:Hsee; [|discriminate].
+      assert (Hp : In w (pool c)) by (apply Hin; left; reflexivity).
+      pose proof (mu_see c s w s1 I Hp Hsee) as M.
+      pose proof (IH seen' s1 s' (fun x Hx => Hin x (or_intror Hx)) (inv_see c s w s1 I Hp Hsee) H) as M'.
+      simpl. lia.
+    + apply (IH (w' :: seen') s s'); [intros x Hx; apply Hin; right; exact Hx|exact I|exact H].
+Qed.
+
+Lemma sumf_dec_all : forall f g l, (forall x, In x l -> g x + 1 = f x) -> sumf g l + length l = sumf f l.
+Proof.
+  intros f g l. induction l as [|x l IH]; intros H; simpl; [reflexivity|].
+  pose proof (H x (or_introl eq_refl)). rewrite <- IH; [lia|]. intros y Hy. apply H. right. exact Hy.
+Qed.
+
+Lemma mu_finish : forall c s, Inv c s ->
+  mu c (finish_all (finish_targets c s) s) + length (finish_targets c s) = mu c s.
+Proof.
+  intros c s I. destruct (finish_targets_cases c s I) as [E|(E & Hj & Hall)]; rewrite E; [simpl; lia|].
+  destruct (finish_all_fields (pool c) s) as (H1 & H2 & H3 & H4 & H5 & H6 & H7 & H8 & H9 & H10 & H11).
+  pose proof (finish_all_wfin (pool c) s) as Hwf.
+  pose proof (fun w => finish_all_chan (pool c) s w (pool_NoDup c)) as Hch.
+  unfold mu. rewrite H1, H8.
+  rewrite <- (sumf_dec_all (link_mu s) (link_mu (finish_all (pool c) s)) (pool c)); [unfold wid, job in *; lia|].
+  intros w Hw. destruct (Hall w Hw) as (Hm & Ho & Hf & Hc & Hs & He).
+  unfold link_mu. rewrite H6, Hwf, Hch. apply memb_In in Hw. rewrite Hw, Hf, Hc, Hs. simpl. reflexivity.
+Qed.
+
+Lemma mu_recv : forall c s w m l, Inv c s -> In w (pool c) -> wst s w = Pending ->
+  wild_match s w = Some (m, l) -> mu c (do_recv w m l s) < mu c s.
+Proof.
+  intros c s w m l I Hp Hs Hm.
+  destruct (wild_match_shape s w m l (inv_links c s I w Hp) Hs Hm) as (El & He & Hcase). subst l.
+  pose proof (mu_link_change c s (do_recv w m [] s) w Hp) as F.
+  assert (Lx : forall x, x <> w -> link_mu (do_recv w m [] s) x = link_mu s x).
+  { intros x Hx. unfold link_mu; simpl. upds. reflexivity. }
+  specialize (F Lx).
+  assert (L0 : link_mu (do_recv w m [] s) w < link_mu s w).
+  { unfold link_mu; simpl. upds. rewrite Hs.
+    destruct Hcase as [(j & Ej & Hc & _)|(Ej & Hc & _)]; subst m; rewrite Hc; simpl; lia. }
+  unfold mu. simpl in *. lia.
+Qed.
+
+Lemma mu_run : forall c s w j, Inv c s -> In w (pool c) -> wst s w = Work j -> mu c (do_run w j s) + 1 = mu c s.
+Proof.
+  intros c s w j I Hp Hs.
+  destruct (work_shape s w j (inv_links c s I w Hp) Hs) as (Hmem & Ho & Hf & Hc & Hpo & He).
+  pose proof (mu_link_change c s (do_run w j s) w Hp) as F.
+  assert (Lx : forall x, x <> w -> link_mu (do_run w j s) x = link_mu s x).
+  { intros x Hx. unfold link_mu; simpl. upds. reflexivity. }
+  specialize (F Lx).
+  assert (L0 : link_mu (do_run w j s) w + 1 = link_mu s w).
+  { unfold link_mu; simpl. upds. rewrite Hs, Hc. simpl. lia. }
+  unfold mu. simpl in *. lia.
+Qed.
+
+Lemma mu_exit : forall c s r, r < np c -> exited s r = false -> mu c (do_exit r s) + 1 = mu c s.
+Proof.
+  intros c s r Hr He. unfold mu. simpl.
+  assert (Hi : In r (ranks c)) by (apply in_ranks; exact Hr).
+  pose proof (sumf_change (fun x => b2n (negb (exited s x))) (fun x => b2n (negb (upd (exited s) r true x)))
+                          (ranks c) r (ranks_NoDup c) Hi) as F.
+  simpl in F. rewrite upd_same, He in F. simpl in F.
+  assert (Hx : forall x, In x (ranks c) -> x <> r -> b2n (negb (upd (exited s) r true x)) = b2n (negb (exited s x))).
+  { intros x _ Hne. upds. reflexivity. }
+  specialize (F Hx).
+  assert (Lk : sumf (link_mu (do_exit r s)) (pool c) = sumf (link_mu s) (pool c)) by reflexivity.
+  rewrite Lk. lia.
+Qed.
+
+(** progress_measure: every non-stuttering step of a round strictly decreases the natural number [mu]. *)
+Theorem progress_measure_inv : forall c s e s', Inv c s -> step c s e = Some s' ->
+  stutter e = false -> is_newround e = false -> mu c s' < mu c s.
+Proof.
+  intros c s e s' I H Hst Hnr. destruct e as [l|seen fins|w m|w j|r|r|js]; simpl in H; try discriminate.
+  - destruct (exited s 0); [discriminate|]. destruct l as [|p l]; [discriminate|].
+    destruct (pairs_eqb (p :: l) (order_pairs s)) eqn:Hp; [|discriminate].
+    inversion H; subst.
+    pose proof (mu_order_loop c (jobstack s) (wstack s) s I eq_refl eq_refl) as M. fold (do_order s) in M.
+    assert (Hlen : 0 < length (combine (jobstack s) (wstack s))).
+    { fold (order_pairs s). destruct (order_pairs s); [destruct p; discriminate|simpl; lia]. }
+    lia.
+  - destruct (exited s 0); [discriminate|].
+    destruct (match seen, fins with [], [] => true | _, _ => false end) eqn:Hne; [discriminate|].
+    destruct (check_loop (pool c) seen s) as [s1|] eqn:Hc; [|discriminate].
+    destruct (list_eqb fins (finish_targets c s1)) eqn:Hf; [|discriminate].
+    inversion H; subst. apply list_eqb_eq in Hf. subst fins.
+    pose proof (mu_check_loop c (pool c) seen s s1 (fun w Hw => Hw) I Hc) as M1.
+    pose proof (mu_finish c s1 (inv_check_loop c (pool c) seen s s1 (fun w Hw => Hw) I Hc)) as M2.
+    assert (0 < length seen + length (finish_targets c s1)).
+    { destruct seen; [destruct (finish_targets c s1); [discriminate|simpl; lia]|simpl; lia]. }
+    lia.
+  - destruct (is_worker c w && negb (exited s w)) eqn:Hw; [|discriminate].
+    apply andb_true_iff in Hw. destruct Hw as [Hw _]. apply in_pool in Hw.
+    destruct (wst s w) eqn:Hs; try discriminate.
+    destruct (wild_match s w) as [[m' l]|] eqn:Hm; [|discriminate].
+    destruct (msg_eqb m m') eqn:Hmm; [|discriminate].
+    apply msg_eqb_eq in Hmm. subst m'. inversion H; subst. apply mu_recv; assumption.
+  - destruct (is_worker c w && negb (exited s w)) eqn:Hw; [|discriminate].
+    apply andb_true_iff in Hw. destruct Hw as [Hw _]. apply in_pool in Hw.
+    destruct (wst s w) as [|j'|] eqn:Hs; try discriminate.
+    destruct (Nat.eqb_spec j j') as [E|E]; [|discriminate]. subst j'.
+    inversion H; subst. pose proof (mu_run c s w j I Hw Hs). lia.
+  - destruct ((r <? np c) && negb (exited s r) && loop_done c s r) eqn:Hc; [|discriminate].
+    apply andb_true_iff in Hc. destruct Hc as [Hc Hd]. apply andb_true_iff in Hc. destruct Hc as [Hr He].
+    apply Nat.ltb_lt in Hr. apply negb_true_iff in He. inversion H; subst.
+    pose proof (mu_exit c s r Hr He). lia.
+Qed.
+
+Theorem progress_measure : forall c s e s', reachable c s -> step c s e = Some s' ->
+  stutter e = false -> is_newround e = false -> mu c s' < mu c s.
+Proof. intros c s e s' R. apply progress_measure_inv. apply inv_reachable. exact R. Qed.
+
+Lemma stutter_same : forall c s e s', step c s e = Some s' -> stutter e = true -> s' = s.
+Proof.
+  intros c s e s' H Hs. destruct e; try discriminate. simpl in H.
+  destruct ((r <? np c) && negb (exited s r)); [|discriminate]. inversion H. reflexivity.
+Qed.
+
+(** value of the measure at the start of a round: 4 J + 3 Nprocs + P *)
+Lemma sumf_const : forall k l f, (forall x, In x l -> f x = k) -> sumf f l = k * length l.
+Proof.
+  intros k l f. induction l as [|x l IH]; intros H; simpl; [lia|].
+  rewrite H by (left; reflexivity). rewrite IH; [lia|]. intros y Hy. apply H. right. exact Hy.
+Qed.
+
+Lemma mu_init : forall c js s, is_init c js s -> mu c s = 4 * length js + 3 * nprocs c + np c.
+Proof.
+  intros c js s (Hj & Hw & Ho & Hf & Hd & Ha & Hs & Hc & He & Hl & Her). unfold mu. rewrite Hj.
+  rewrite (sumf_const 3 (pool c)); [|intros x _; unfold link_mu; rewrite Hc, Hs, Hf; reflexivity].
+  rewrite (sumf_const 1 (ranks c)); [|intros x _; rewrite He; reflexivity].
+  unfold nprocs, ranks. rewrite seq_length. unfold wid, job in *. lia.
+Qed.
+
+(** number of non-stuttering events in a trace *)
+Definition work (t : list event) : nat := length (filter (fun e => negb (stutter e)) t).
+Definition newrounds (t : list event) : list (list job) :=
+  flat_map (fun e => match e with ENewRound js => [js] | _ => [] end) t.
+
+(** Consequence (termination under weak fairness): within one round at most [mu] non-stuttering steps can be
+    taken from any state, whatever the interleaving; together with [no_deadlock] (a non-stuttering step is
+    always available until every rank has left the loop) every fair run of a round ends with all ranks out
+    of the loop after at most 4 J + 3 Nprocs + P non-stuttering steps. *)
+Theorem bounded_work_inv : forall c t s s', Inv c s -> run c s t = Some s' -> newrounds t = [] ->
+  mu c s' + work t <= mu c s.
+Proof.
+  intros c t. induction t as [|e t IH]; intros s s' I H Hn; simpl in H.
+  - inversion H; subst. unfold work; simpl. lia.
+  - destruct (step c s e) as [s1|] eqn:Hs; [|discriminate].
+    assert (Hnr : is_newround e = false /\ newrounds t = []).
+    { unfold newrounds in *. simpl in Hn. destruct e; simpl in *; try (split; [reflexivity|exact Hn]). discriminate. }
+    destruct Hnr as [Hnr Hnt].
+    pose proof (IH s1 s' (inv_step c s e s1 I Hs) H Hnt) as M.
+    unfold work in *. simpl. destruct (stutter e) eqn:Hst; simpl.
+    + rewrite (stutter_same c s e s1 Hs Hst) in M. exact M.
+    + pose proof (progress_measure_inv c s e s1 I Hs Hst Hnr). lia.
+Qed.
+
+Theorem bounded_work : forall c js t s', NoDup js -> run c (init c js) t = Some s' -> newrounds t = [] ->
+  work t <= 4 * length js + 3 * nprocs c + np c.
+Proof.
+  intros c js t s' Hn H Hnr.
+  pose proof (bounded_work_inv c t (init c js) s' (inv_of_init c js _ Hn (init_is_init c js)) H Hnr) as M.
+  rewrite (mu_init c js (init c js) (init_is_init c js)) in M. lia.
+Qed.
+
+Lemma run_cons : forall c s e t,
+  run c s (e :: t) = match step c s e with Some s' => run c s' t | None => None end.
+Proof. reflexivity. Qed.
+
+Lemma run_app : forall c t1 t2 s s1 s2, run c s t1 = Some s1 -> run c s1 t2 = Some s2 -> run c s (t1 ++ t2) = Some s2.
+Proof.
+  intros c t1. induction t1 as [|e t1 IH]; intros t2 s s1 s2 H1 H2; simpl in *.
+  - inversion H1; subst. exact H2.
+  - destruct (step c s e) as [s'|]; [|discriminate]. apply (IH t2 s' s1 s2); assumption.
+Qed.
+
+Lemma newrounds_app : forall t1 t2, newrounds (t1 ++ t2) = newrounds t1 ++ newrounds t2.
+Proof. intros. unfold newrounds. apply flat_map_app. Qed.
+
+(** from every reachable state the round can be completed (the model is not vacuous, and no state is a trap) *)
+Theorem can_finish_inv : forall c, valid_cfg c = true -> forall n s, mu c s <= n -> Inv c s ->
+  exists t s', run c s t = Some s' /\ finalb c s' = true /\ newrounds t = [].
+Proof.
+  intros c V n. induction n as [|n IH]; intros s Hm I.
+  - destruct (finalb c s) eqn:F.
+    + exists [], s. repeat split. exact F.
+    + destruct (no_deadlock_inv c s V I F) as (e & s1 & H1 & H2 & H3).
+      pose proof (progress_measure_inv c s e s1 I H3 H1 H2). lia.
+  - destruct (finalb c s) eqn:F.
+    + exists [], s. repeat split. exact F.
+    + destruct (no_deadlock_inv c s V I F) as (e & s1 & H1 & H2 & H3).
+      pose proof (progress_measure_inv c s e s1 I H3 H1 H2) as Hlt.
+      destruct (IH s1 ltac:(lia) (inv_step c s e s1 I H3)) as (t & s' & Hr & Hf & Hn).
+      exists (e :: t), s'. repeat split.
+      * simpl. rewrite H3. exact Hr.
+      * exact Hf.
+      * unfold newrounds in *. simpl. rewrite Hn. destruct e; simpl in *; try reflexivity. discriminate.
+Qed.
+
+Theorem can_finish : forall c s, valid_cfg c = true -> reachable c s ->
+  exists t s', run c s t = Some s' /\ finalb c s' = true /\ newrounds t = [].
+Proof. intros c s V R. apply (can_finish_inv c V (mu c s) s (le_n _)). apply inv_reachable. exact R. Qed.
+
+(** * Final state *)
+Require Import Permutation.
+
+Lemma final_all_fin : forall c s, Inv c s -> final c s -> forall w, In w (pool c) -> wfin s w = true.
+Proof. intros c s I F w Hw. apply (final_links c s w I F Hw). Qed.
+
+Lemma final_executed : forall c s, valid_cfg c = true -> Inv c s -> final c s ->
+  jobstack s = [] /\ forall j, executed j s = cnt j (alljobs s).
+Proof.
+  intros c s V I F. destruct (valid_pool_nonempty c V) as [w0 Hw0].
+  destruct (all_fin_of_one c s w0 I Hw0 (final_all_fin c s I F w0 Hw0)) as [Hall Hj].
+  split; [exact Hj|]. intros j.
+  assert (Fl : in_flight c j s = 0).
+  { unfold in_flight. apply sumf_zero. intros x Hx. rewrite (fin_no_active c s x I Hx (Hall x Hx)). reflexivity. }
+  pose proof (inv_cons c s I j) as C. unfold on_stack in C. rewrite Hj in C. simpl in C. lia.
+Qed.
+
+(** final_state: when every rank has left the loop, every job of the round has been executed exactly once
+    (the list of executed jobs is a duplicate-free permutation of the round's jobs), DispatchMap is defined
+    exactly on the round's jobs and names the rank that ran each job (so each job ran on exactly one rank),
+    no message is in flight on any link, no receive of the master is outstanding, and the model never left
+    its envelope. *)
+Theorem final_state : forall c s, valid_cfg c = true -> reachable c s -> finalb c s = true ->
+  (forall j, In j (alljobs s) -> executed j s = 1) /\
+  (forall j, ~ In j (alljobs s) -> executed j s = 0) /\
+  NoDup (map fst (log s)) /\ Permutation (map fst (log s)) (alljobs s) /\
+  (forall j w, In (j, w) (log s) -> dmap s j = Some w /\ In w (pool c)) /\
+  (forall j, In j (alljobs s) -> exists w, In (j, w) (log s) /\ dmap s j = Some w) /\
+  (forall j w, dmap s j = Some w -> In j (alljobs s)) /\
+  (forall w, chan s w = []) /\ (forall w, In w (pool c) -> outst s w = false) /\
+  jobstack s = [] /\ err s = false.
+Proof.
+  intros c s V R Fb. pose proof (inv_reachable c s R) as I. apply finalb_final in Fb.
+  destruct (final_executed c s V I Fb) as [Hj Hex].
+  assert (Hnd : NoDup (map fst (log s))).
+  { apply NoDup_of_cnt. intros j. unfold executed in Hex. rewrite Hex. apply cnt_NoDup. apply (inv_jobs_nodup c s I). }
+  assert (Hiff : forall j, In j (map fst (log s)) <-> In j (alljobs s)).
+  { intros j. rewrite <- !cnt_pos_In. unfold executed in Hex. rewrite Hex. tauto. }
+  repeat split.
+  - intros j Hi. rewrite Hex. apply cnt_NoDup_In; [apply (inv_jobs_nodup c s I)|exact Hi].
+  - intros j Hi. rewrite Hex. apply cnt_zero_notIn. exact Hi.
+  - exact Hnd.
+  - apply NoDup_Permutation; [exact Hnd|apply (inv_jobs_nodup c s I)|exact Hiff].
+  - apply (inv_dmap_log c s I j w H).
+  - apply (inv_dmap_log c s I j w H).
+  - intros j Hi. apply Hiff in Hi. apply in_map_iff in Hi. destruct Hi as [[j' w] [E Hi]]. simpl in E. subst j'.
+    exists w. split; [exact Hi|apply (inv_dmap_log c s I j w Hi)].
+  - apply (inv_dmap_dom c s I).
+  - intros w. apply (final_chan_empty c s w I Fb).
+  - intros w Hw. apply (final_links c s w I Fb Hw).
+  - exact Hj.
+  - apply (inv_err c s I).
+Qed.
+
+(** each job ran on exactly one rank *)
+Corollary final_one_rank : forall c s, reachable c s -> forall j w w',
+  In (j, w) (log s) -> In (j, w') (log s) -> w = w'.
+Proof.
+  intros c s R j w w' H1 H2. pose proof (inv_reachable c s R) as I.
+  destruct (inv_dmap_log c s I j w H1) as [E1 _]. destruct (inv_dmap_log c s I j w' H2) as [E2 _]. congruence.
+Qed.
+
+(** the executable end-of-round check used by the replay driver is implied by the theorems *)
+Theorem final_check : forall c s, valid_cfg c = true -> reachable c s -> finalb c s = true -> final_okb c s = true.
+Proof.
+  intros c s V R Fb. pose proof (inv_reachable c s R) as I.
+  destruct (final_state c s V R Fb) as (H1 & H2 & H3 & H4 & H5 & H6 & H7 & H8 & H9 & H10 & H11).
+  pose proof Fb as Fp. apply finalb_final in Fp.
+  assert (A1 : forallb (fun w => match chan s w with [] => true | _ => false end) (ranks c) = true).
+  { apply forallb_forall. intros w _. rewrite H8. reflexivity. }
+  assert (A2 : forallb (fun j => cnt j (map fst (log s)) =? 1) (alljobs s) = true).
+  { apply forallb_forall. intros j Hj. apply Nat.eqb_eq. apply (H1 j Hj). }
+  assert (A3 : (length (log s) =? length (alljobs s)) = true).
+  { apply Nat.eqb_eq. rewrite <- (map_length fst). apply Permutation_length. exact H4. }
+  assert (A4 : forallb (fun jw => opt_is (dmap s (fst jw)) (snd jw)) (log s) = true).
+  { apply forallb_forall. intros [j w] Hi. simpl. destruct (H5 j w Hi) as [E _]. rewrite E. simpl. apply Nat.eqb_refl. }
+  assert (A5 : forallb (fun w => match wst s w with Finish => true | _ => false end) (pool c) = true).
+  { apply forallb_forall. intros w Hw. destruct (final_links c s w I Fp Hw) as (E & _). rewrite E. reflexivity. }
+  assert (A6 : forallb (wfin s) (pool c) = true).
+  { apply forallb_forall. intros w Hw. apply (final_all_fin c s I Fp w Hw). }
+  unfold final_okb. rewrite Fb, H10, H11, (final_no_outst c s I Fp), A1, A2, A3, A4, A5, A6. reflexivity.
+Qed.
+
+(** * Rounds *)
+
+(** rounds: in a final state the next round may start; the state it starts in -- new master, new workers,
+    and whatever the previous round left in the MPI layer -- is a valid initial state (pointwise equal to
+    [init] up to the round counter).  Since [ENewRound] is an event of [step], [reachable] already ranges
+    over any number of rounds, so every theorem above holds in every round. *)
+Theorem rounds : forall c s js, reachable c s -> finalb c s = true -> NoDup js ->
+  step c s (ENewRound js) = Some (restart c s js) /\ is_init c js (restart c s js) /\
+  reachable c (restart c s js).
+Proof.
+  intros c s js R Fb Hn. pose proof (inv_reachable c s R) as I.
+  assert (S : step c s (ENewRound js) = Some (restart c s js)).
+  { simpl. unfold finalb in Fb. rewrite Fb, (NoDup_nodupb js Hn). reflexivity. }
+  split; [exact S|]. split; [apply restart_is_init; [exact I|apply finalb_final; exact Fb]|].
+  destruct R as (js0 & t & Hn0 & Hr). exists js0, (t ++ [ENewRound js]). split; [exact Hn0|].
+  apply (run_app c t [ENewRound js] (init c js0) s); [exact Hr|]. rewrite run_cons, S. reflexivity.
+Qed.
+
+(** any number of rounds, each with its own job list, can be run to completion, and at the end of the
+    last one the end-of-round check holds *)
+Theorem rounds_exist : forall c, valid_cfg c = true -> forall jss s, reachable c s ->
+  (forall js, In js jss -> NoDup js) ->
+  exists t s', run c s t = Some s' /\ finalb c s' = true /\ final_okb c s' = true /\ newrounds t = jss.
+Proof.
+  intros c V jss. induction jss as [|js jss IH]; intros s R Hnd.
+  - destruct (can_finish c s V R) as (t & s' & Hr & Hf & Hn). exists t, s'. repeat split; try assumption.
+    apply final_check; [exact V| |exact Hf].
+    destruct R as (js0 & t0 & Hn0 & Hr0). exists js0, (t0 ++ t). split; [exact Hn0|].
+    apply (run_app c t0 t (init c js0) s); assumption.
+  - destruct (can_finish c s V R) as (t & s1 & Hr & Hf & Hn).
+    assert (R1 : reachable c s1).
+    { destruct R as (js0 & t0 & Hn0 & Hr0). exists js0, (t0 ++ t). split; [exact Hn0|].
+      apply (run_app c t0 t (init c js0) s); assumption. }
+    destruct (rounds c s1 js R1 Hf (Hnd js (or_introl eq_refl))) as (S & _ & R2).
+    destruct (IH (restart c s1 js) R2 (fun x Hx => Hnd x (or_intror Hx))) as (t2 & s' & Hr2 & Hf2 & Hk2 & Hn2).
+    exists (t ++ ENewRound js :: t2), s'. repeat split; try assumption.
+    + apply (run_app c t (ENewRound js :: t2) s s1); [exact Hr|]. rewrite run_cons, S. exact Hr2.
+    + rewrite newrounds_app, Hn. simpl. unfold newrounds in *. simpl. rewrite Hn2. reflexivity.
+Qed.
+
+(** * Examples: the hypotheses of the theorems are satisfiable by non-trivial values *)
+
+(** 3 ranks with the root working (include_boss), 4 jobs in the order 2,0,3,1; a complete round in which the
+    master first misses worker 1's report, jobs run on all three ranks, followed by a second round of 1 job *)
+Definition ex_cfg := mkcfg 3 true.
+Definition ex_trace : list event :=
+  [EOrder [(2,0); (0,1); (3,2)]; ERecv 1 (MWork 0); ERecv 0 (MWork 2); ERun 1 0; ERecv 2 (MWork 3);
+   ERun 0 2; EIdle 0; ECheck [0] []; EOrder [(1,0)]; ERun 2 3; ECheck [1; 2] []; ERecv 0 (MWork 1);
+   ERun 0 1; ECheck [0] [0; 1; 2]; ERecv 2 MFinish; EExit 2; ERecv 0 MFinish; ERecv 1 MFinish; EExit 0; EExit 1].
+
+Example ex_valid : valid_cfg ex_cfg = true.
+Proof. reflexivity. Qed.
+
+Example ex_run_final : exists s, run ex_cfg (init ex_cfg [2; 0; 3; 1]) ex_trace = Some s /\ finalb ex_cfg s = true
+  /\ final_okb ex_cfg s = true /\ log s = [(1, 0); (3, 2); (2, 0); (0, 1)].
+Proof. eexists. vm_compute. repeat split. Qed.
+
+Example ex_reachable_nonfinal : exists s, reachable ex_cfg s /\ finalb ex_cfg s = false /\ jobstack s = [1].
+Proof.
+  exists (match run ex_cfg (init ex_cfg [2; 0; 3; 1]) (firstn 6 ex_trace) with Some s => s | None => init ex_cfg [] end).
+  split; [|split; vm_compute; reflexivity].
+  exists [2; 0; 3; 1], (firstn 6 ex_trace). split.
+  - repeat constructor; simpl; intuition discriminate.
+  - vm_compute. reflexivity.
+Qed.
+
+Example ex_two_rounds : exists s, run ex_cfg (init ex_cfg [2; 0; 3; 1])
+    (ex_trace ++ [ENewRound [5]; EOrder [(5,0)]; ERecv 0 (MWork 5); ERun 0 5; ECheck [0] [0;1;2];
+                  ERecv 0 MFinish; ERecv 1 MFinish; ERecv 2 MFinish; EExit 0; EExit 1; EExit 2]) = Some s
+  /\ final_okb ex_cfg s = true /\ round s = 1 /\ log s = [(5, 0)].
+Proof. eexists. vm_compute. repeat split. Qed.
+
+(** a root that only runs the master (include_boss = false), 3 ranks, one job *)
+Example ex_noboss : exists s, run (mkcfg 3 false) (init (mkcfg 3 false) [0])
+    [EOrder [(0,1)]; ERecv 1 (MWork 0); ERun 1 0; ECheck [1] [1;2]; EExit 0; ERecv 2 MFinish; ERecv 1 MFinish;
+     EExit 1; EExit 2] = Some s /\ final_okb (mkcfg 3 false) s = true.
+Proof. eexists. vm_compute. repeat split. Qed.
+
+(** negative examples: the step function refuses what the code cannot do *)
+Example ex_refuse_early_finish :
+  step ex_cfg (init ex_cfg [0]) (ECheck [] [0; 1; 2]) = None.
+Proof. reflexivity. Qed.
+Example ex_refuse_steal : forall s, run ex_cfg (init ex_cfg [2; 0; 3; 1]) (firstn 6 ex_trace) = Some s ->
+  step ex_cfg s (ERecv 0 MPend) = None.
+Proof. intros s H. vm_compute in H. inversion H. reflexivity. Qed.
